@@ -203,17 +203,21 @@ def step (s : Sess) (line : String) : Sess × String :=
     -- the validator runs a block built on the committed state: the produced block, or a broken variant
     if !s.inBlock || !s.rewarded then (s, "bad-op") else
     let blk (txs : List Tx) : Block := { ctx := s.ctx, txs, reward := s.reward }
+    -- a block is refused either because a transaction is rejected ("refused-tx") or because the state /
+    -- receipts root in its header is not what execution yields ("refused-root": a header made wrong, or a
+    -- block that carries a transaction more than the one the header was computed for)
     let answer (o : Option (World × List Receipt)) (rootOk : Bool) : Sess × String :=
       match o, rootOk with
       | some (w, rs), true => ({ s with committed := w, inBlock := false }, s!"accepted fees={sumFees rs} | {dump w 0}")
-      | _, _ => (s, s!"refused | {dump s.committed 0}")
+      | some _, false => (s, s!"refused-root | {dump s.committed 0}")
+      | none, _ => (s, s!"refused-tx | {dump s.committed 0}")
     match rest with
     | ["ok"] => answer (validateBlock s.committed (blk s.txs)) true
     | ["badroot"] => answer (validateBlock s.committed (blk s.txs)) false
     | ["badreceipts"] => answer (validateBlock s.committed (blk s.txs)) false
     | "badtx" :: pos :: txw =>
       match pos.toNat?, parseTx txw with
-      | some pos, some tx => answer (validateBlock s.committed (blk (s.txs.take pos ++ [tx] ++ s.txs.drop pos))) true
+      | some pos, some tx => answer (validateBlock s.committed (blk (s.txs.take pos ++ [tx] ++ s.txs.drop pos))) false
       | _, _ => (s, "bad-op")
     | _ => (s, "bad-op")
   | ["end"] =>
